@@ -312,10 +312,9 @@ PROPS["C02"] = {
     "jobs": [
         Job("soyhtml", "H_program", "2,2,0..2", workers=16, timeout=900),
         Job("soyhtml", "H_program", "2,3,0..2", tier="thorough", workers=16, timeout=3000),
-        Job("soyhtml", "H_program", "2,4,2", tier="thorough", workers=16, timeout=6000),
     ],
     "bounds_quick": "template bodies generated from the command grammar (raw text, print, if/else, foreach/ifempty with isLast, let value, let content, call with data=all / data=$m / none and an optional param, switch with multi-value case/default, for-range, special characters/literal/css/log/msg) with at most 2 generated nodes (thorough: 3 and 4) up to nesting depth 2, followed by a fixed trailer printing the params, list lengths 0..2; names drawn from {a,b,i} so that lets shadow params and loop variables; data: a symbolic bool, b symbolic in {p,q}, a list and a map; compiled by the real parser (without the data-reference check so that unbound names reach the renderer) and rendered by the real interpreter; compared with an independent big-step reference semantics with block scoping and call isolation",
-    "bounds_thorough": "3 generated nodes for every list length; 4 nodes with list length 2",
+    "bounds_thorough": "3 generated nodes for every list length (about 10^6 paths, 30 min)",
     "outside": "programs beyond the size bound; recursion; several namespaces/files and aliased call names (covered by the concrete bundles of C08/C13); header params",
     "assumptions": ["refRender (c02Env in the harness) is an independent transcription of the Soy command semantics: a let or loop variable lives in the block that introduces it; a callee sees the passed data plus its params only"],
     "level_text": "Bounded model checking over programs: the program is chosen through solver-visible choice variables over the command grammar (an exhaustive enumeration within the size bound, driven through the symbolic executor), the data is symbolic; every program is run through the real parser and interpreter and through an independent reference interpreter.",
